@@ -1,8 +1,8 @@
 \* negative control: helper reads ignore errors as at the pinned commit, shouldExit repaired; must FAIL NoSilentlyShortStream (F7c)
 SPECIFICATION Spec
-CONSTANTS Docs <- AllDocs
+CONSTANTS Docs <- SmallDocs
   Modes <- AllModes
-  MaxK = 24
+  MaxK = 16
   RECOVER_SWALLOWS = FALSE
   HELPERS_IGNORE = TRUE
   SOURCE_AWARE = TRUE
